@@ -131,10 +131,11 @@ def lengths_of(kernel, tier):
     v = width(kernel)
     thorough = tier == "thorough"
     if kind in ("add", "bin"):
-        ls = list(range(0, 137)) if thorough else [0, 1, 7, 8, 9, 15, 16, 17, 31, 32, 33, 63, 64, 65]
+        # at least two full vector iterations of the widest kernel (loop-carried pointers/indices) + head/tail
+        ls = list(range(0, 137)) + [191, 192, 193] if thorough else [0, 1, 7, 8, 9, 15, 16, 17, 31, 32, 33, 63, 64, 65, 129]
         if kind == "bin":
             # the SIMD binary kernels are only entered with non-empty operands (the dispatcher returns early)
-            ls = [x for x in ls if x > 0] if thorough else [1, 9, 31, 32, 33, 63, 64, 65]      # the SIMD binary kernels are only entered with non-empty operands (dispatcher returns early)
+            ls = [x for x in ls if x > 0] if thorough else [1, 9, 31, 32, 33, 63, 64, 65, 128, 131, 192]      # the SIMD binary kernels are only entered with non-empty operands (dispatcher returns early)
         return ls
     if v is None:            # fall-back kernels and the no_std public entry points
         return list(range(0, 18)) if thorough else [0, 1, 2, 3, 9]
@@ -199,7 +200,7 @@ def describe(rep, tier):
          "octets::BinaryOctetVec::{new,len,padding_bits,select_mask,to_octet_vec}"]
     rep.bounds = {"lengths": "one harness per kernel and length (concrete length, exact heap allocations); add/binary kernels: %s; table kernels "
                              "(mul, fma) of vector width V: %s; fall-back kernels and no_std entry points: %s (see coverage.lengths_per_kernel)" % (
-        ("0..=136", "0..=V+1, 2V-1, 2V, 2V+1", "0..=17") if tier == "thorough" else ("0,1,7,8,9,15,16,17,31,32,33,63,64,65 (binary: 1,9,31,32,33,63,64,65)", "0,1,V,V+1,2V+1", "0,1,2,3,9")),
+        ("0..=136", "0..=V+1, 2V-1, 2V, 2V+1", "0..=17") if tier == "thorough" else ("0,1,7,8,9,15,16,17,31,32,33,63,64,65,129 (binary: 1,9,31,32,33,63,64,65,128,131,192)", "0,1,V,V+1,2V+1", "0,1,2,3,9")),
         "contents": "all byte values symbolic",
         "scalar": "kernels without a table (add, binary fma): all 256 values at every length; table kernels (mul, fma): every length at the fixed "
                   "scalars listed in the obligation names, plus 16-value scalar slices at one length per kernel (a full vector and a tail byte); "
